@@ -30,7 +30,7 @@ def table : List (String × List (String × Tag)) := [
       ("with self._lock:", .act .cl_lock),
       ("if self._callLaterTask is None:", .act .cl_isNone),
       ("self._callLaterTask = CallLaterTask()", .act .cl_create),
-      ("self._callLaterTask.start()", .call),
+      ("self._callLaterTask.start(self)", .call),
       ("end with self._lock", .act .cl_unlock),
       ("self._callLaterTask.callLater(func, *args, **kw)", .call)]),
   ("recoco.Scheduler.synchronized", [
@@ -45,7 +45,7 @@ def table : List (String × List (String × Tag)) := [
       ("self.fast_schedule(task, first)", .call),
       ("return True", .call),
       ("st = ScheduleTask(self, task)", .act .sch_spawn),
-      ("st.start(fast=True)", .call)]),
+      ("st.start(self, fast=True)", .call)]),
   ("recoco.Scheduler.fast_schedule", [
       ("assert task not in self._ready", .act .fs_assert),
       ("self._ready.appendleft(task)", .act .fs_appendleft),
